@@ -201,7 +201,9 @@ func (f *Frame) staticCall(st *execState, fn *ssa.Function, args, free []Val, rt
 		r := f.freshResult(st, name, rtype, hint)
 		if name == "fmt.Errorf" || name == "errors.New" {
 			if iv, ok := r.(IfaceV); ok {
+				// a new error value: non-nil, and its data word is a fresh allocation
 				e.assume(e.tb.Implies(st.reach, e.tb.Ne(iv.Typ, e.tb.ConstU(0, 64))))
+				e.assume(e.tb.Implies(st.reach, e.tb.Ule(e.tb.ConstU(preLimit, 64), iv.Data)))
 			}
 		}
 		return r
@@ -591,6 +593,17 @@ func (f *Frame) checkEnsuresPaths(flags pathFlags) {
 	}
 	tb := e.tb
 	for _, en := range f.con.Ensures {
+		if len(en.Props) > 0 && e.w.property != "" {
+			found := false
+			for _, p := range en.Props {
+				if p == e.w.property {
+					found = true
+				}
+			}
+			if !found {
+				continue
+			}
+		}
 		if strings.HasPrefix(en.Label, "slow-") && e.w.tier != "thorough" {
 			e.deferred = append(e.deferred, fnName(f.fn)+"#ensures:"+en.Label)
 			continue
@@ -598,7 +611,8 @@ func (f *Frame) checkEnsuresPaths(flags pathFlags) {
 		var parts []oblPart
 		var conds, goals []*Term
 		for _, r := range f.rets {
-			st := &execState{reach: r.cond, env: map[ssa.Value]Val{}, mem: r.mem, gh: r.gh, st: r.st}
+			st := &execState{reach: r.cond, env: r.env, mem: r.mem, gh: r.gh, st: r.st}
+			f.curBlock = r.blk
 			sc := f.resultScope(st, r.vals)
 			sc.goal = true
 			g := e.evalBool(sc, en.Expr, en.Text)
